@@ -308,17 +308,16 @@ Qed.
 Lemma In_firstn' {A} (x : A) : forall n l, In x (firstn n l) -> In x l.
 Proof. induction n as [|n IH]; intros [|y l] H; cbn in *; try tauto. destruct H as [H|H]; [left; exact H | right; apply IH, H]. Qed.
 
-Theorem t1_read_safe hr0 em : bytes_ok em ->
-  t1_read_any hr0 em = Ok None \/
-  exists L, t1_read_any hr0 em = Ok (Some L) /\ tlv_sound (firstn 2048 em) 12 L /\ l_dend L <= 2048.
+(* on ANY image (RALL data of any length followed by whatever READ8 / RSEG delivered) *)
+Theorem t1_read_img_safe hr0 m : bytes_ok m ->
+  fst (t1_read_img hr0 m) = Ok None \/
+  exists L, fst (t1_read_img hr0 m) = Ok (Some L) /\ tlv_sound m 12 L /\ l_dend L <= 2048.
 Proof.
-  intro Hb0. assert (Hb : bytes_ok (firstn 2048 em)).
-  { unfold bytes_ok in *. rewrite Forall_forall in *. intros x Hx. apply Hb0. eapply In_firstn'; eauto. }
-  unfold t1_read_any, t1_read_d. set (m := firstn 2048 em) in *.
-  destruct (len m <? 120); [left; reflexivity|]. destruct (negb _); [left; reflexivity|].
-  destruct (rd m 8) as [b8| | |]; try (left; reflexivity). destruct (rd m 9) as [b9| | |]; try (left; reflexivity).
-  destruct (rd m 10) as [b10| | |] eqn:E10; try (left; reflexivity). destruct (rd m 11) as [b11| | |]; try (left; reflexivity).
-  destruct (negb (b8 =? 225)); [left; reflexivity|]. destruct (negb (Z.shiftr b9 4 =? 1)); [left; reflexivity|].
+  intro Hb. unfold t1_read_img. destruct (negb _); [left; reflexivity|].
+  destruct (rd m 8) as [b8| | |]; try (left; reflexivity). destruct (negb (b8 =? 225)); [left; reflexivity|].
+  destruct (rd m 9) as [b9| | |]; try (left; reflexivity). destruct (negb (Z.shiftr b9 4 =? 1)); [left; reflexivity|].
+  destruct (rd m 11) as [b11| | |]; try (left; reflexivity).
+  destruct (rd m 10) as [b10| | |] eqn:E10; try (left; reflexivity).
   pose proof (rd_byte _ _ _ Hb E10) as B10.
   set (size := (b10 + 1) * 8). set (skip0 := [(104, if size =? 120 then 120 else 128)]).
   destruct (t1_walk_any_total (S (Z.to_nat size)) m size skip0 12 12 12 Hb ltac:(lia) ltac:(lia))
@@ -328,6 +327,15 @@ Proof.
   destruct (tlv_fits m L) eqn:F; [right | left; reflexivity]. exists L. split; [reflexivity|].
   split; [|unfold L; cbn [l_dend]; unfold size; lia].
   apply (fits_sound m 12 L l e Hb); auto; unfold L; cbn [l_off l_skip l_val]; auto; lia.
+Qed.
+Theorem t1_read_safe hr0 em : bytes_ok em ->
+  t1_read_any hr0 em = Ok None \/
+  exists L, t1_read_any hr0 em = Ok (Some L) /\ tlv_sound (firstn 2048 em) 12 L /\ l_dend L <= 2048.
+Proof.
+  intro Hb0. assert (Hb : bytes_ok (firstn 2048 em)).
+  { unfold bytes_ok in *. rewrite Forall_forall in *. intros x Hx. apply Hb0. eapply In_firstn'; eauto. }
+  unfold t1_read_any, t1_read_d. destruct (len (firstn 2048 em) <? 120); [left; reflexivity|].
+  apply t1_read_img_safe, Hb.
 Qed.
 
 (* the demand of the Type 1 reader: never beyond the 2048 addressable bytes (plus the failing read) *)
@@ -342,20 +350,25 @@ Proof.
   destruct (t1_dispatch_any skip t l v) as [[skip'| |]| | |]; cbn [snd]; try lia.
   apply IH; auto; destruct (l <? 255); lia.
 Qed.
+Theorem t1_img_demand_le hr0 m : bytes_ok m -> snd (t1_read_img hr0 m) <= Z.max (len m + 1) 12.
+Proof.
+  intro Hb. unfold t1_read_img. destruct (negb _); [cbn; lia|].
+  destruct (rd m 8) as [b8| | |]; cbn [snd]; try lia. destruct (negb (b8 =? 225)); [cbn; lia|].
+  destruct (rd m 9) as [b9| | |]; cbn [snd]; try lia. destruct (negb (Z.shiftr b9 4 =? 1)); [cbn; lia|].
+  destruct (rd m 11) as [b11| | |] eqn:E11; cbn [snd]; try lia. apply rd_inv in E11 as [H11 _].
+  destruct (rd m 10) as [b10| | |]; cbn [snd]; try lia.
+  set (size := (b10 + 1) * 8). set (skip0 := [(104, if size =? 120 then 120 else 128)]).
+  pose proof (t1_walk_any_le (S (Z.to_nat size)) m size skip0 12 12 12 ltac:(lia) Hb ltac:(lia)) as W.
+  destruct (t1_walk_any (S (Z.to_nat size)) m size skip0 12 12 12) as [r d]. cbn [snd] in W.
+  destruct r as [[[[[off skip] v] hw]|]| | |]; cbn [snd]; lia.
+Qed.
 Theorem t1_demand_le hr0 em : bytes_ok em -> snd (t1_read_d hr0 em) <= 2049.
 Proof.
   intro Hb0. assert (Hb : bytes_ok (firstn 2048 em)).
   { unfold bytes_ok in *. rewrite Forall_forall in *. intros x Hx. apply Hb0. eapply In_firstn'; eauto. }
   assert (Hl : len (firstn 2048 em) <= 2048) by (unfold len; rewrite firstn_length; lia).
-  unfold t1_read_d. set (m := firstn 2048 em) in *.
-  destruct (len m <? 120) eqn:E120; [cbn; lia|]. destruct (negb _); [cbn; lia|].
-  destruct (rd m 8) as [b8| | |]; cbn [snd]; try lia. destruct (rd m 9) as [b9| | |]; cbn [snd]; try lia.
-  destruct (rd m 10) as [b10| | |]; cbn [snd]; try lia. destruct (rd m 11) as [b11| | |]; cbn [snd]; try lia.
-  destruct (negb (b8 =? 225)); [cbn; lia|]. destruct (negb (Z.shiftr b9 4 =? 1)); [cbn; lia|].
-  set (size := (b10 + 1) * 8). set (skip0 := [(104, if size =? 120 then 120 else 128)]).
-  pose proof (t1_walk_any_le (S (Z.to_nat size)) m size skip0 12 12 12 ltac:(lia) Hb ltac:(lia)) as W.
-  destruct (t1_walk_any (S (Z.to_nat size)) m size skip0 12 12 12) as [r d]. cbn [snd] in W.
-  destruct r as [[[[[off skip] v] hw]|]| | |]; cbn [snd]; lia.
+  unfold t1_read_d. destruct (len (firstn 2048 em) <? 120) eqn:E; [cbn; lia|].
+  pose proof (t1_img_demand_le hr0 _ Hb). lia.
 Qed.
 (* at most RALL, READ8 and 15 RSEG commands, the last one sent three times *)
 Theorem t1_read_cmds hr0 em : bytes_ok em -> t1_cmds_max (snd (t1_read_d hr0 em)) <= 20.
